@@ -101,6 +101,16 @@ theorem nan_interleave (a b : List (Option Rat)) (n : Nat) :
     otsuRemoveNan (a ++ none :: b) n = otsuRemoveNan (a ++ b) n := by
   unfold otsuRemoveNan; simp [List.filterMap_append]
 
+/-- no division by zero anywhere in the mechanism: for data with two distinct values the first and the
+last bin are never empty (they hold min and max), hence both class weights are positive at every
+cut point — the class means `u1`, `u2` are genuine quotients -/
+theorem class_weights_positive (xs : List Rat) (n : Nat) (hn : 2 ≤ n) (h : minL xs < maxL xs)
+    (i : Nat) (hi : i + 1 < n) :
+    0 < sumR (((histogram xs n).1.map (fun (k : Nat) => (k : Rat))).take (i + 1)) ∧
+    0 < sumR (((histogram xs n).1.map (fun (k : Nat) => (k : Rat))).drop (i + 1)) := by
+  obtain ⟨hl, h0, h1⟩ := histogram_end_bins xs n hn h
+  exact class_weights_pos (histogram xs n).1 h0 (by rw [hl]; exact h1) i (by rw [hl]; exact hi)
+
 /-! ## non-vacuity -/
 
 def exHist : List Nat := [2, 0, 1, 3]
